@@ -4,7 +4,8 @@
           length 0..MaxPre (so the struct sits at argument position 0..MaxPre), plus the canonical saturating
           prefixes i^a f^b with a <= MaxInt, b <= MaxSse (both register files exhausted)
    kind : the classification vector of the struct (its size matters only for stack bookkeeping)
-   ret  : "void" | "same" (the function returns the same struct type: MEMORY results take rdi) *)
+   ret  : "void" | "same" (the function returns the struct type it takes) | "mem" (it returns some other
+          MEMORY-class struct): MEMORY results are written through a hidden pointer that takes rdi *)
 EXTENDS SysVAbi, Json
 
 CONSTANTS MaxPre, MaxInt, MaxSse
@@ -19,14 +20,15 @@ SizeOfKind(cv) == IF cv = << "MEMORY" >> THEN 24 ELSE 8 * Len(cv)
 Canon(a, b) == [i \in 1..(a + b) |-> IF i <= a THEN "i" ELSE "f"]
 Pres == UNION { [1..n -> { "i", "f" }] : n \in 0..MaxPre } \cup { Canon(a, b) : a \in 0..MaxInt, b \in 0..MaxSse }
 
-Init == pre \in Pres /\ kind \in Kinds /\ ret \in { "void", "same" }
+Init == pre \in Pres /\ kind \in Kinds /\ ret \in { "void", "same", "mem" }
 Next == UNCHANGED vars
 Spec == Init /\ [][Next]_vars
 
 ScalarArg(c) == IF c = "i" THEN [cv |-> << "INTEGER" >>, size |-> 8] ELSE [cv |-> << "SSE" >>, size |-> 8]
 StructArg == [cv |-> kind, size |-> SizeOfKind(kind)]
 Args == [i \in 1..Len(pre) |-> ScalarArg(pre[i])] \o << StructArg, ScalarArg("i"), ScalarArg("f") >>
-RetArg == IF ret = "void" THEN [cv |-> << >>, size |-> 0] ELSE StructArg
+RetArg == IF ret = "void" THEN [cv |-> << >>, size |-> 0]
+          ELSE IF ret = "mem" THEN [cv |-> << "MEMORY" >>, size |-> 24] ELSE StructArg
 
 NI == Cardinality({ i \in 1..Len(pre) : pre[i] = "i" })
 NF == Len(pre) - NI
@@ -41,7 +43,7 @@ AllOrNothing ==      \* a struct is never split between registers and stack
     LET l == Locs[Len(pre) + 1] IN
     \/ \A k \in 1..Len(l) : l[k] \in Range(IntRegs) \cup Range(SseRegs)
     \/ Len(l) = 1 /\ l[1] \notin Range(IntRegs) \cup Range(SseRegs)
-HiddenFirst == (ret = "same" /\ kind = << "MEMORY" >>) => "rdi" \notin Range(FlattenSeq(Locs))
+HiddenFirst == (ret = "mem" \/ (ret = "same" /\ kind = << "MEMORY" >>)) => "rdi" \notin Range(FlattenSeq(Locs))
 
 Emit == PrintT(ToJson([ pre |-> pre, kind |-> kind, ret |-> ret, ni |-> NI, nf |-> NF,
                         locs |-> Locs, retloc |-> RetLoc(RetArg) ]))
